@@ -14,6 +14,7 @@ variable {J V : Type}
 theorem admitChange_ok_iff (env : Env V) (mod : Module J V) (p : Param J V) (j : J) (v w : V) :
     admitChange env mod p j = .ok (v, w) ↔
       p.readonly = false ∧ p.constant = none ∧ p.dt.accept j (some p.entry.value) = .ok v ∧
+      (p.isLimitsPair = true → pairInverted env v = false) ∧
       p.dt.revalidate v = .ok w ∧ ChecksOK env mod p.attr v p.checks := by
   unfold admitChange
   cases hc : p.constant with
@@ -27,25 +28,36 @@ theorem admitChange_ok_iff (env : Env V) (mod : Module J V) (p : Param J V) (j :
       | error e => simp
       | ok v' =>
         simp only
-        cases hrev : p.dt.revalidate v' with
-        | error e =>
-          simp only [reduceCtorEq, false_iff]
+        by_cases hinv : (p.isLimitsPair && pairInverted env v') = true
+        · simp only [hinv, if_true, reduceCtorEq, false_iff]
           rintro ⟨h1, h2, _⟩
-          injection h1 with h1; subst h1; rw [hrev] at h2; cases h2
-        | ok w' =>
-          simp only
-          cases hrun : runChecks (checkOne env mod p.attr v') p.checks with
-          | some e =>
+          injection h1 with h1; subst h1
+          simp only [Bool.and_eq_true] at hinv
+          rw [h2 hinv.1] at hinv; exact absurd hinv.2 (by simp)
+        · simp only [hinv, Bool.false_eq_true, if_false]
+          have hord : p.isLimitsPair = true → pairInverted env v' = false := by
+            intro hl; cases hpi : pairInverted env v' with
+            | false => rfl
+            | true => exact absurd (by simp [hl, hpi]) hinv
+          cases hrev : p.dt.revalidate v' with
+          | error e =>
             simp only [reduceCtorEq, false_iff]
-            rintro ⟨h1, _, h3⟩
-            injection h1 with h1; subst h1
-            rw [← runChecks_none_iff, hrun] at h3; cases h3
-          | none =>
-            constructor
-            · intro h; injection h with h; injection h with h1 h2; subst h1; subst h2
-              exact ⟨rfl, hrev, (runChecks_none_iff ..).1 hrun⟩
-            · rintro ⟨h1, h2, _⟩
-              injection h1 with h1; subst h1; rw [hrev] at h2; injection h2 with h2; subst h2; rfl
+            rintro ⟨h1, _, h2, _⟩
+            injection h1 with h1; subst h1; rw [hrev] at h2; cases h2
+          | ok w' =>
+            simp only
+            cases hrun : runChecks (checkOne env mod p.attr v') p.checks with
+            | some e =>
+              simp only [reduceCtorEq, false_iff]
+              rintro ⟨h1, _, _, h3⟩
+              injection h1 with h1; subst h1
+              rw [← runChecks_none_iff, hrun] at h3; cases h3
+            | none =>
+              constructor
+              · intro h; injection h with h; injection h with h1 h2; subst h1; subst h2
+                exact ⟨rfl, hord, hrev, (runChecks_none_iff ..).1 hrun⟩
+              · rintro ⟨h1, _, h2, _⟩
+                injection h1 with h1; subst h1; rw [hrev] at h2; injection h2 with h2; subst h2; rfl
 
 /-- **change_calls_iff.**  The driver's `write_` method is called — and then exactly once, with exactly the
 validated value — if and only if the module and the parameter exist and are exported, the parameter is
@@ -69,14 +81,14 @@ theorem change_calls_iff (pre : Predef) (env : Env V) (n : Node J V) (hwf : Node
       · rw [if_pos hpw] at h
         injection h with h _; injection h with h1 h2 h3
         have hex := exported_of_lookupParam pre n m' a' mod p hlook
-        obtain ⟨h1', h2', h3', h4', h5'⟩ := (admitChange_ok_iff env mod p j v w0).1 hadm
-        exact ⟨mod, p, v, ⟨⟨m', a', ht, hex⟩, h1', h2', h3', h3 ▸ h4', h5'⟩, hpw, h1, h2⟩
+        obtain ⟨h1', h2', h3', ho', h4', h5'⟩ := (admitChange_ok_iff env mod p j v w0).1 hadm
+        exact ⟨mod, p, v, ⟨⟨m', a', ht, hex⟩, h1', h2', h3', ho', h3 ▸ h4', h5'⟩, hpw, h1, h2⟩
       · rw [if_neg hpw] at h; cases h
   · rintro ⟨mod, p, v, hacc, hpw, hname, hattr⟩
     obtain ⟨m0, a0, ht, hex⟩ := hacc.addressed
     have hlook := lookupParam_of_exported pre n hwf m0 a0 mod p hex
     have hadm := (admitChange_ok_iff env mod p j v w).2
-      ⟨hacc.notReadonly, hacc.notConstant, hacc.payload, hacc.revalidated, hacc.checks⟩
+      ⟨hacc.notReadonly, hacc.notConstant, hacc.payload, hacc.ordered, hacc.revalidated, hacc.checks⟩
     unfold handleChange
     rw [ht]; simp only; rw [hlook]; simp only; rw [hadm]; simp only
     rw [finishWrite_calls, if_pos hpw, hname, hattr]
@@ -109,8 +121,8 @@ theorem rejected_is_inert (pre : Predef) (env : Env V) (n : Node J V) (hwf : Nod
     obtain ⟨mod, p, hmem, hname, hattr, hhw, ⟨m', a', ht, hlook⟩, hadm, heq⟩ := hv
     exfalso; apply h
     have hex := exported_of_lookupParam pre n m' a' mod p hlook
-    obtain ⟨h1', h2', h3', h4', h5'⟩ := (admitChange_ok_iff env mod p j v w0).1 hadm
-    exact ⟨mod, p, v, w0, ⟨⟨m', a', ht, hex⟩, h1', h2', h3', h4', h5'⟩⟩
+    obtain ⟨h1', h2', h3', ho', h4', h5'⟩ := (admitChange_ok_iff env mod p j v w0).1 hadm
+    exact ⟨mod, p, v, w0, ⟨⟨m', a', ht, hex⟩, h1', h2', h3', ho', h4', h5'⟩⟩
 
 /-- the only way to be accepted without a driver call: the parameter has no `write_` method (there is no
 driver to reach); every request that is not accepted is inert -/
@@ -189,13 +201,24 @@ theorem fitting_badPayload (pre : Predef) (env : Env V) (n : Node J V) (hwf : No
 theorem fitting_limits (pre : Predef) (env : Env V) (n : Node J V) (hwf : Node.WF pre n) (spec : Spec) (j : J)
     (m a : String) (ht : target "target" spec = some (m, a)) (mod : Module J V) (p : Param J V)
     (hex : ExportedParam pre n m a mod p) (hro : p.readonly = false) (hc : p.constant = none) (v w : V)
-    (hacc : p.dt.accept j (some p.entry.value) = .ok v) (hrev : p.dt.revalidate v = .ok w)
+    (hacc : p.dt.accept j (some p.entry.value) = .ok v) (hord : p.isLimitsPair = false) (hrev : p.dt.revalidate v = .ok w)
     (rest : List Check) (hchk : p.checks = .limits :: rest) (hlim : ¬ LimitsOK env mod p.attr v) :
     handleChange pre env n spec j = ⟨.error .rangeError, [], [], n⟩ := by
   unfold handleChange; rw [ht]; simp only
   rw [lookupParam_of_exported pre n hwf m a mod p hex]; simp only
   unfold admitChange
-  simp [hro, hc, hacc, hrev, hchk, runChecks, checkOne, checkLimits_of_not_ok env mod p.attr v hlim, refuse, mkErr]
+  simp [hro, hc, hacc, hord, hrev, hchk, runChecks, checkOne, checkLimits_of_not_ok env mod p.attr v hlim, refuse, mkErr]
+
+/-- an inverted `<p>_limits` pair is refused with RangeError, like any other limit violation -/
+theorem fitting_invertedPair (pre : Predef) (env : Env V) (n : Node J V) (hwf : Node.WF pre n) (spec : Spec) (j : J)
+    (m a : String) (ht : target "target" spec = some (m, a)) (mod : Module J V) (p : Param J V)
+    (hex : ExportedParam pre n m a mod p) (hro : p.readonly = false) (hc : p.constant = none) (v : V)
+    (hacc : p.dt.accept j (some p.entry.value) = .ok v) (hpair : p.isLimitsPair = true) (hinv : pairInverted env v = true) :
+    handleChange pre env n spec j = ⟨.error .rangeError, [], [], n⟩ := by
+  unfold handleChange; rw [ht]; simp only
+  rw [lookupParam_of_exported pre n hwf m a mod p hex]; simp only
+  unfold admitChange
+  simp [hro, hc, hacc, hpair, hinv, refuse, mkErr]
 
 /-! ### commands -/
 
@@ -364,13 +387,13 @@ def dt : DtOps Nat Nat where
   datainfo := 0
 
 def target : Param Nat Nat :=
-  { attr := "target", exp := .auto, limitHead := none, readonly := false, constant := none, dt := dt,
+  { attr := "target", exp := .auto, limitHead := none, isLimitsPair := false, readonly := false, constant := none, dt := dt,
     entry := ⟨1, none⟩, checks := [.hook 1, .limits], hasRead := false, hasWrite := true, props := [] }
 def targetMax : Param Nat Nat :=
-  { attr := "target_max", exp := .auto, limitHead := some "target", readonly := false, constant := none, dt := dt,
+  { attr := "target_max", exp := .auto, limitHead := some "target", isLimitsPair := false, readonly := false, constant := none, dt := dt,
     entry := ⟨50, none⟩, checks := [], hasRead := false, hasWrite := false, props := [] }
 def ro : Param Nat Nat :=
-  { attr := "k", exp := .auto, limitHead := none, readonly := true, constant := some 7, dt := dt,
+  { attr := "k", exp := .auto, limitHead := none, isLimitsPair := false, readonly := true, constant := some 7, dt := dt,
     entry := ⟨7, none⟩, checks := [], hasRead := false, hasWrite := false, props := [] }
 def stop : Command Nat Nat := { attr := "stop", exp := .auto, arg := none, res := none, datainfo := 0, props := [] }
 def m : Module Nat Nat := { name := "m", exported := true, accs := [.param target, .param targetMax, .param ro, .command stop], props := [] }
